@@ -121,7 +121,7 @@ def check_user_scanlines(start_line, end_line, first_valid_lat=None,
         end_line = num_valid_lines - 1
         LOG.warning("Given end line exceeds scanline range, resetting "
                     "to {}".format(end_line))
-    if start_line > num_valid_lines:
+    if start_line >= num_valid_lines:
         raise ValueError("Given start line {} exceeds scanline range {}"
                          .format(start_line, num_valid_lines))
     return start_line, end_line
